@@ -98,6 +98,7 @@
 #include <bxdecay0/Po214.h>
 #include <bxdecay0/Po214low.h>
 #include <bxdecay0/Po218.h>
+#include <bxdecay0/Pt192low.h>
 #include <bxdecay0/Ra222.h>
 #include <bxdecay0/Ra222low.h>
 #include <bxdecay0/Ra226.h>
@@ -128,12 +129,14 @@
 #include <bxdecay0/Te133m.h>
 #include <bxdecay0/Te134.h>
 #include <bxdecay0/Th230.h>
+#include <bxdecay0/Ti46low.h>
 #include <bxdecay0/Th234.h>
 #include <bxdecay0/Ti48low.h>
 #include <bxdecay0/Tl207.h>
 #include <bxdecay0/Tl208.h>
 #include <bxdecay0/U234.h>
 #include <bxdecay0/U238.h>
+#include <bxdecay0/W184low.h>
 #include <bxdecay0/Xe128low.h>
 #include <bxdecay0/Xe129m.h>
 #include <bxdecay0/Xe130low.h>
@@ -2200,6 +2203,9 @@ namespace bxdecay0 {
       if (trace) {
         std::cerr << "[debug] bxdecay0::genbbsub: Process de-excitation particles..." << std::endl;
       }
+      if (name_starts_with(chnuclide_, "Ca46")) {
+        Ti46low(prng_, event_, bb_params_.levelE);
+      }
       if (name_starts_with(chnuclide_, "Ca48")) {
         Ti48low(prng_, event_, bb_params_.levelE);
       }
@@ -2322,6 +2328,12 @@ namespace bxdecay0 {
       }
       if (name_starts_with(chnuclide_, "W186")) {
         Os186low(prng_, event_, bb_params_.levelE);
+      }
+      if (name_starts_with(chnuclide_, "Os184")) {
+        W184low(prng_, event_, bb_params_.levelE);
+      }
+      if (name_starts_with(chnuclide_, "Os192")) {
+        Pt192low(prng_, event_, bb_params_.levelE);
       }
       if (name_starts_with(chnuclide_, "Pt190")) {
         Os190low(prng_, event_, bb_params_.levelE);
